@@ -218,7 +218,9 @@ type World struct {
 	nextItem   int
 	submitted  []int
 	prefillN   int
+	muOwner    map[*sync.Mutex][2]int // poolMu address -> (instance, incarnation)
 	bulkDone   bool
+	admChecked int
 	bulkOK, bulkErr int
 	prefillItems []*Item
 	inEpilogue bool
@@ -387,4 +389,25 @@ func (w *World) apply(inst *Instance, inc int, kind, key string, p *pendingOp, e
 		w.lock.vals[p.id] = bytes.Clone(p.data)
 		w.orc.onLockCommit(inst, inc, p.id, p.data, "create")
 	}
+}
+
+// yield is ctlog.VerifYield for the current run: the calling goroutine is about
+// to take poolMu; park it and let the scheduler decide when it goes on.
+func (w *World) yield(mu *sync.Mutex) {
+	if !w.prof.Yield || w.auto {
+		return
+	}
+	w.smu.Lock()
+	o, ok := w.muOwner[mu]
+	w.smu.Unlock()
+	if !ok {
+		return
+	}
+	in := w.insts[o[0]]
+	if in.inc != o[1] || in.dead {
+		select {}
+	}
+	op := &core.Op{ID: w.sim.NewOpID(in.idx, o[1], "yield", "poolMu"), Inst: in.idx, Inc: o[1], Kind: "yield", Key: "poolMu", Payload: &pendingOp{}}
+	w.sim.Probe("yield.poolMu")
+	w.sim.Park(op)
 }
